@@ -22,3 +22,4 @@ func verifConcrete(s string) string
 func verifSymbolic() bool
 func verifItoa(n int) string
 func verifGlobalsUnchanged() bool
+func verifHasPrefix(s, prefix string) bool
